@@ -88,11 +88,53 @@ class Interp:
         for o in self.new_refs:
             self.ctx.assume(r != o)
         self.new_refs.append(r)
+        if clsname in self.registry.consts.get("ALLOC_FRESH", ()):
+            self._assume_unreferenced(r, clsname)
         return V(TRef(clsname), r)
+
+    def _assume_unreferenced(self, r, clsname):
+        """Allocation freshness, opt-in per class (sidecar: R.consts['ALLOC_FRESH'] = {class names}).
+        The object being created did not exist before, so no field of any object refers to it - neither in the
+        function's entry heap nor in the heap at the moment of allocation.  Stated for every heap array touched so
+        far whose type is C / Optional[C] / list[C]; the per-read facts (`ref_wf`, `self.refs`) say the same for
+        individually read references only, which is not enough for quantified clauses over list elements."""
+        I_ = z3.IntSort()
+        done = set()
+        for (owner, f), cur in list(self.heap.arrays.items()):
+            try:
+                ty = self.field(owner, f)[1]
+            except Unsupported:
+                continue
+            inner = ty.inner if isinstance(ty, TOpt) else ty
+            elem = inner.elem if isinstance(inner, TList) else inner
+            if not (isinstance(elem, TRef) and elem.cls == clsname):
+                continue
+            entry = z3.Const("%s_%s.%s" % (self.heap.tag, owner, f), z3.ArraySort(I_, sym.sort_of(ty)))
+            for arr in (cur, entry):
+                if arr.get_id() in done:
+                    continue
+                done.add(arr.get_id())
+                o = self.ctx.fresh_const(I_, "fo")
+                cell = V(ty, z3.Select(arr, o))
+                if isinstance(ty, TOpt):
+                    if isinstance(inner, TList):
+                        continue
+                    self.ctx.assume(z3.ForAll([o], z3.Or(sym.opt_is_none(cell), sym.opt_val(cell).t != r)))
+                elif isinstance(inner, TList):
+                    k = self.ctx.fresh_const(I_, "fk")
+                    ln = sort_len = sym.sort_of(ty).accessor(0, 0)(cell.t)
+                    el = z3.Select(sym.list_arr(cell), k)
+                    self.ctx.assume(z3.ForAll([o, k], z3.Implies(z3.And(0 <= k, k < ln), el != r), patterns=[el]))
+                else:
+                    self.ctx.assume(z3.ForAll([o], cell.t != r))
 
     def fail(self, cond_ok, exc, what, node=None):
         """Implicit failure site: continue when cond_ok, raise `exc` otherwise."""
         if self.spec:
+            if getattr(self, "strict_pure", 0) and not z3.is_true(z3.simplify(cond_ok)):
+                # strict pure mode (comprehension predicates, engine/pyvc/comp.py): a possible implicit failure must
+                # not be skipped silently - the construct is outside the supported subset
+                raise Unsupported("possible %s (%s) inside a comprehension predicate" % (exc, what))
             return
         if not self.ctx.branch(cond_ok):
             raise PyRaise(exc, implicit=what, site=getattr(node, "lineno", None))
